@@ -99,6 +99,8 @@ def einsum_sentences(quick):
     A = ("tensor", "A", [IE[0]])
     # G1: every rank list of length 0..2 over the index-expression menu, on an input and on the output
     lists = [[]] + [[x] for x in IE] + [[x, y] for x in IE for y in (IE if not quick else IE[::3])]
+    if not quick:
+        lists += [[x, y, z] for x in IE[::2] for y in IE[::3] for z in IE[::4]]
     for rl in lists:
         sents.append({"out": ("Z", m1), "terms": [("times", [("tensor", "A", rl)], None)]})
         sents.append({"out": ("Z", rl), "terms": [("times", [A], None)]})
@@ -111,8 +113,10 @@ def einsum_sentences(quick):
         sents.append({"out": ("Z", m1), "terms": [t]})
     rep = [times_terms[0], times_terms[9], times_terms[30], take_terms[0], take_terms[7], take_terms[-1], ("times", [F[2], F[4]], None),
            ("take", [F[3], F[5]], 1)]
+    if not quick:
+        rep = rep + [times_terms[3], times_terms[15], take_terms[3], take_terms[20]]
     for n in (2, 3):
-        for c in itertools.product(rep if n == 2 else rep[:5], repeat=n):
+        for c in itertools.product(rep if n == 2 else rep[:(5 if quick else 8)], repeat=n):
             sents.append({"out": ("Z", m1), "terms": list(c)})
     return sents
 
@@ -524,11 +528,11 @@ def work_items(ctx):
         rec = RECS[kind]
         n0 = len(items)
         for idx, (toks, want) in enumerate(sents):
-            full = kind != "einsum" or idx % (8 if quick else 2) == 0
+            full = kind != "einsum" or idx % (8 if quick else 1) == 0
             for seps in ws_variants(toks, full):
                 items.append((kind, render(toks, seps), want))
         # near misses of a representative subset of sentences
-        step = max(1, len(sents) // (300 if quick else 1500)) if kind == "einsum" else 1
+        step = max(1, len(sents) // (300 if quick else 3000)) if kind == "einsum" else 1
         nm = set()
         for toks, _ in sents[::step]:
             nm.update(near_misses(kind, toks))
